@@ -15,7 +15,7 @@ WRAP = -Wl,--wrap=pthread_create,--wrap=pthread_join,--wrap=dlsym,--wrap=epoll_c
 HARNESSES = $(patsubst $(V)/harness/%.c,%,$(wildcard $(V)/harness/c*.c))
 BINS = $(patsubst %,$(B)/h_%,$(HARNESSES))
 
-all: $(BINS)
+all: $(BINS) $(B)/h_c19_ctx_mmap $(B)/h_c19_ctx_uctx
 
 $(B)/lib/%.o: $(REPO)/src/%.c
 	@mkdir -p $(B)/lib
@@ -33,6 +33,27 @@ $(B)/hobj/regshim.o: $(V)/harness/regshim.S
 	@mkdir -p $(B)/hobj
 	$(CC) -c $< -o $@
 $(B)/h_%: $(B)/hobj/%.o $(LIBOBJS) $(RTOBJS) $(B)/hobj/regshim.o
+	$(CC) -o $@ $^ $(WRAP) -lpthread -ldl
+
+# C19 variants: the same harness against other stack strategies / switching back-ends
+LIBOBJS_NOCTX = $(filter-out $(B)/lib/fiber_context.o,$(LIBOBJS))
+ICF_MMAP = $(subst -DFIBER_STACK_MALLOC,-DFIBER_STACK_MMAP,$(ICF))
+ICF_UCTX = $(subst -DFIBER_FAST_SWITCHING,,$(ICF))
+$(B)/lib/fiber_context_mmap.o: $(REPO)/src/fiber_context.c
+	@mkdir -p $(B)/lib
+	$(CC) $(ICF_MMAP) -w -MMD -MP -c $< -o $@
+$(B)/lib/fiber_context_uctx.o: $(REPO)/src/fiber_context.c
+	@mkdir -p $(B)/lib
+	$(CC) $(ICF_UCTX) -w -MMD -MP -c $< -o $@
+$(B)/hobj/c19_ctx_mmap.o: $(V)/harness/c19_ctx.c $(V)/sim/sim.h $(V)/harness/common.h
+	@mkdir -p $(B)/hobj
+	$(CC) $(ICF_MMAP) -DC19_VARIANT=1 -MMD -MP -c $< -o $@
+$(B)/hobj/c19_ctx_uctx.o: $(V)/harness/c19_ctx.c $(V)/sim/sim.h $(V)/harness/common.h
+	@mkdir -p $(B)/hobj
+	$(CC) $(ICF_UCTX) -DC19_VARIANT=2 -MMD -MP -c $< -o $@
+$(B)/h_c19_ctx_mmap: $(B)/hobj/c19_ctx_mmap.o $(B)/lib/fiber_context_mmap.o $(LIBOBJS_NOCTX) $(RTOBJS) $(B)/hobj/regshim.o
+	$(CC) -o $@ $^ $(WRAP),--wrap=mmap,--wrap=munmap -lpthread -ldl
+$(B)/h_c19_ctx_uctx: $(B)/hobj/c19_ctx_uctx.o $(B)/lib/fiber_context_uctx.o $(LIBOBJS_NOCTX) $(RTOBJS) $(B)/hobj/regshim.o
 	$(CC) -o $@ $^ $(WRAP) -lpthread -ldl
 
 -include $(wildcard $(B)/lib/*.d) $(wildcard $(B)/hobj/*.d) $(wildcard $(B)/rt/*.d)
